@@ -832,6 +832,15 @@ protected:
       {
         // Handle chunked encoding
         requestEndPos = findChunkedRequestEnd(dataStr, headerEnd + 4);
+        if (requestEndPos == CHUNKED_MALFORMED)
+        {
+          // More data cannot repair a malformed chunk-size line: close instead of waiting
+          // forever with neither a response nor a close.
+          iora::core::Logger::error("HttpServer: Malformed chunked body for session " +
+                                    std::to_string(sid) + " - closing connection");
+          closeSession(sid);
+          return;
+        }
         if (requestEndPos == std::string::npos)
         {
           break; // Need more data for chunked body
@@ -1361,6 +1370,10 @@ protected:
                               std::to_string(sid));
   }
 
+  /// \brief Returned by findChunkedRequestEnd for a chunked body that no further data can
+  /// make valid (as opposed to std::string::npos = incomplete, need more data).
+  static constexpr std::size_t CHUNKED_MALFORMED = std::string::npos - 1;
+
   /// \brief Find the end of a chunked request body
   std::size_t findChunkedRequestEnd(const std::string &data, std::size_t bodyStart) const
   {
@@ -1375,17 +1388,45 @@ protected:
         return std::string::npos; // Need more data
       }
 
-      // Parse chunk size (hex)
+      // Parse chunk size: chunk-size = 1*HEXDIG, optionally followed by chunk extensions
+      // (BWS ";" ...), RFC 9112 §7.1. Parsed strictly (std::stoul also took "0x5", "-1",
+      // "+5", leading whitespace) and bounded by MAX_BODY_SIZE, which also rules out overflow.
       std::string chunkSizeStr = data.substr(pos, chunkSizeLine - pos);
-      std::size_t chunkSize;
-      try
+      std::size_t chunkSize = 0;
+      std::size_t digits = 0;
+      for (; digits < chunkSizeStr.size(); ++digits)
       {
-        chunkSize = std::stoul(chunkSizeStr, nullptr, 16);
+        const char ch = chunkSizeStr[digits];
+        std::size_t v;
+        if (ch >= '0' && ch <= '9')
+        {
+          v = static_cast<std::size_t>(ch - '0');
+        }
+        else if (ch >= 'a' && ch <= 'f')
+        {
+          v = static_cast<std::size_t>(ch - 'a' + 10);
+        }
+        else if (ch >= 'A' && ch <= 'F')
+        {
+          v = static_cast<std::size_t>(ch - 'A' + 10);
+        }
+        else
+        {
+          break;
+        }
+        chunkSize = (chunkSize << 4) | v;
+        if (chunkSize > SessionInfo::MAX_BODY_SIZE)
+        {
+          iora::core::Logger::error("HttpServer: Chunk size exceeds the body size limit");
+          return CHUNKED_MALFORMED;
+        }
       }
-      catch (...)
+      const std::size_t afterBws = chunkSizeStr.find_first_not_of(" \t", digits);
+      if (digits == 0 || (afterBws == std::string::npos && digits != chunkSizeStr.size()) ||
+          (afterBws != std::string::npos && chunkSizeStr[afterBws] != ';'))
       {
         iora::core::Logger::error("HttpServer: Invalid chunk size in chunked encoding");
-        return std::string::npos;
+        return CHUNKED_MALFORMED;
       }
 
       pos = chunkSizeLine + 2; // Skip \r\n
